@@ -9,8 +9,8 @@ id=$1; src=$2; shift 2
 W=/var/tmp/seed-$id
 out=/verif/seeded/$id
 mkdir -p $out
-cp $src/patch.diff $out/patch.diff
-for f in demo.scm demo.sh README.md; do [ -f $src/$f ] && cp $src/$f $out/$f; done
+cp -r $src/. $out/
+find $out -size +200k -type f -delete
 log=$out/confirm.log
 : > $log
 git -C /repo worktree remove --force $W >/dev/null 2>&1
@@ -18,7 +18,7 @@ git -C /repo worktree add --detach $W HEAD >/dev/null 2>&1 || { echo "worktree f
 cleanup() { git -C /repo worktree remove --force $W >/dev/null 2>&1; rm -rf /var/tmp/seed-$id-base; }
 trap cleanup EXIT
 rundemo() {  # $1 = tree
-  if [ -f $out/demo.sh ]; then (cd $1 && LD_LIBRARY_PATH=. CHIBI_IGNORE_SYSTEM_PATH=1 CHIBI_MODULE_PATH=lib timeout 300 bash $out/demo.sh 2>&1 | tail -40)
+  if [ -f $out/demo.sh ]; then (cd $1 && rm -rf MUTANT && cp -r $out MUTANT && LD_LIBRARY_PATH=. CHIBI_IGNORE_SYSTEM_PATH=1 CHIBI_MODULE_PATH=lib timeout 600 bash MUTANT/demo.sh 2>&1 | tail -40; rm -rf MUTANT)
   else (cd $1 && LD_LIBRARY_PATH=. CHIBI_IGNORE_SYSTEM_PATH=1 CHIBI_MODULE_PATH=lib timeout 300 ./chibi-scheme $out/demo.scm 2>&1 | tail -40); fi
 }
 # unpatched demo output
